@@ -24,7 +24,9 @@ THEOREMS = ["Yardl.C20.serialized_converges", "Yardl.C20.invalid_intermediate_st
             "Yardl.C20.skip_if_busy_drops_the_last_save", "Yardl.C20.concurrent_converges_if_fifo"]
 
 # the watched package imports Lib, which imports Base: the invalid intermediate states include those of the imported packages
-MANIFEST = "namespace: Watch\nimports:\n  - ../lib\npython:\n  outputDir: ../out_py\njson:\n  outputDir: ../out_json\n"
+MANIFEST = ("namespace: Watch\nimports:\n  - ../lib\npython:\n  outputDir: ../out_py\njson:\n  outputDir: ../out_json\nmatlab:\n  outputDir: ../out_matlab\n"
+            "cpp:\n  sourcesOutputDir: ../out_cpp\n  generateCMakeLists: false\n")
+OUT_DIRS = ("out_py", "out_json", "out_matlab", "out_cpp")
 LIB_MANIFESTS = {
     "valid": "namespace: Lib\nimports:\n  - ../base\n",
     "unsupported-scheme": "namespace: Lib\nimports:\n  - ../base\n  - http://example.invalid/units\n",
@@ -69,6 +71,7 @@ def run(report, tier, seed):
         schedules = directed_schedules()
         for i in range(6 if quick else 60):
             schedules.append((f"random-{i}", random_schedule(rng)))
+        schedules += same_name_schedules(rng, 3 if quick else 30)
         import concurrent.futures
         with concurrent.futures.ThreadPoolExecutor(max_workers=6) as ex:
             results = list(ex.map(lambda a: execute(ybin, sc.path(f"w{a[0]}"), a[1][1]), enumerate(schedules)))
@@ -106,6 +109,98 @@ def directed_schedules():
     ] + [
         ("imported-model-invalid", [S(1), ("sleep", 100), ("lib-model", 2, False), ("sleep", 30), S(2), ("sleep", 300), ("lib-model", 3), ("sleep", 30), S(3), ("sleep", 200), ("base-model", 4), ("sleep", 30), S(4)]),
     ]
+
+
+# the same definition names with different content from save to save: whatever a regeneration remembers about 'Settings', 'Pair<int, int>' or
+# 'R1' must not survive into the next one (a one-shot generate starts from nothing)
+SAME_NAMES = [
+    """Mode: !enum
+  values: {fast: 1, slow: 2}
+Settings: !record
+  fields:
+    mode: Mode
+    gain: float
+Pair<A, B>: !record
+  fields:
+    first: A
+    second: B
+Scan: !record
+  fields:
+    settings: Settings
+    p: Pair<int, int>
+    q: Pair<string, Settings>
+P: !protocol
+  sequence:
+    scans: !stream {items: Scan}
+""",
+    """Mode: !enum
+  values: {idle: 0, fast: 1, slow: 2}
+Settings: !record
+  fields:
+    mode: Mode
+    gain: float
+Pair<A, B>: !record
+  fields:
+    first: A
+    second: B?
+Scan: !record
+  fields:
+    settings: Settings
+    p: Pair<int, int>
+    q: Pair<string, Settings>
+P: !protocol
+  sequence:
+    scans: !stream {items: Scan}
+""",
+    """Mode: !flags
+  values: [fast, slow]
+Settings: !record
+  fields:
+    mode: Mode
+    gain: double*
+    extra: [null, int, string]
+Pair<A, B>: !record
+  fields:
+    first: A*
+    second: string->B
+Scan: !record
+  fields:
+    p: Pair<int, int>
+    settings: Settings?
+    q: Pair<string, Settings>
+  computedFields:
+    n: size(p.first)
+P: !protocol
+  sequence:
+    head: Settings
+    scans: !stream {items: Scan}
+""",
+]
+
+
+def same_name_schedules(rng, n_random):
+    import modelgen
+    out = []
+    S = lambda i: ("save-text", SAME_NAMES[i], f"same-names-{i}")
+    for order in ([0, 1], [1, 0], [0, 1, 0], [0, 2, 1], [2, 1, 0, 2], [1, 2, 0]):
+        steps = []
+        for i in order:
+            steps += [S(i), ("sleep", 700)]
+        out.append(("samenames-" + "".join(map(str, order)), steps))
+    # random packages: the generator numbers its definitions R1, E2, G3, ... so different packages reuse the same names
+    texts = []
+    for j in range(n_random + 2):
+        g = modelgen.Gen(rng.randrange(1 << 30))
+        g.avoid_bool_sequences = False
+        pkg = g.gen_package(namespace="Watch", n_imports=0, n_defs=rng.choice([3, 5, 7]), n_protocols=1)
+        texts.append(modelgen.package_files(pkg, random.Random(j), 0.3)["model.yml"])
+    for j in range(n_random):
+        seq = rng.sample(range(len(texts)), min(len(texts), rng.choice([2, 3, 4])))
+        steps = []
+        for i in seq:
+            steps += [("save-text", texts[i], f"random-model-{i}"), ("sleep", rng.choice([400, 700, 1000]))]
+        out.append((f"samenames-random-{j}", steps))
+    return out
 
 
 def random_schedule(rng):
@@ -178,6 +273,9 @@ def _execute(ybin, root, steps):
                 final = (st[1], kw.get("valid", True))
                 if "gap" in kw:
                     time.sleep(kw["gap"] / 1000.0)
+            elif st[0] == "save-text":
+                _write(os.path.join(pkg, "model.yml"), st[1])
+                final = (st[2], True)
             elif st[0] == "save2":
                 _write(os.path.join(pkg, "extra.yml"), f"Extra{st[1]}: int32\n")
                 final2 = st[1]
@@ -212,7 +310,7 @@ def _execute(ybin, root, steps):
         if r.returncode != 0:
             diff = "one-shot generate of the final contents failed: " + r.stdout.decode(errors="replace")[-500:]
         else:
-            for d in ("out_py", "out_json"):
+            for d in OUT_DIRS:
                 diff = diff or _tree_diff(os.path.join(ref, d), os.path.join(root, d))
         return {"alive": alive, "diff": diff, "final_version": final, "watch_log_tail": open(os.path.join(root, "watch.log"), errors="replace").read()[-600:]}
     finally:
@@ -223,7 +321,7 @@ def _execute(ybin, root, steps):
 
 def _signature(root):
     sig = []
-    for d in ("out_py", "out_json"):
+    for d in OUT_DIRS:
         for dp, _, fns in os.walk(os.path.join(root, d)):
             for fn in sorted(fns):
                 fp = os.path.join(dp, fn)
